@@ -6,6 +6,8 @@ import sys
 
 sys.path.insert(0, os.path.dirname(os.path.abspath(__file__)))
 sys.path.insert(0, os.path.join(os.path.dirname(os.path.abspath(__file__)), "..", "tools"))
+import codec  # noqa: E402
+import common  # noqa: E402
 import cppcommon as C  # noqa: E402
 import schema as S  # noqa: E402
 from checklib import Check  # noqa: E402
@@ -39,17 +41,41 @@ def main():
             chk.violation("cpp-%d-%d-%s" % (i, vi, e), C.case_of(cases, jobs, i, vi, {
                 "kind": bad, "endianness": e, "canonical": h,
                 "cpp": {k: o.get(k) for k in ("ok", "reenc", "size", "crash", "exception")}}))
+    # the tie of the C03 theorem: the bytes the compiled encoder wrote = the generator/run-time model cpp_encode = wire,
+    # evaluated inside Coq
+    entries = []
+    for i, vi, e, h, o in records:
+        if vi >= 0 and tail_ok.get((i, vi)) and o.get("ok") and o.get("reenc") and e in ("little", "big"):
+            entries.append((i, vi, e, o["reenc"]))
+
+    def ex(en, names):
+        i, vi, e, hx = en
+        return "(%d, %d, cpp_enc_case %s %s %s %s)" % (i, vi, "LE" if e == "little" else "BE", S.to_coq(cases[i][2], names),
+                                                       S.value_coq(S.value_from_json(jobs[i]["values"][vi])), S.bytes_coq(bytes.fromhex(hx)))
+
+    files = codec.write_case_files(common.scratch("c03"), "enc", entries, ex, chunk=200)
+    for i, vi, r in codec.eval_case_files(files):
+        if r[:1] == [92]:
+            chk.violation("corr-%d-%d" % (i, vi), C.case_of(cases, jobs, i, vi, {
+                "kind": "correspondence broken: CppFull.cpp_encode (theorem C03_cpp_encode_canonical) no longer describes the generated "
+                        "encoder, whose output is still canonical", "result": r}), note="no-failing-input-found")
+        else:
+            chk.violation("wire-%d-%d" % (i, vi), C.case_of(cases, jobs, i, vi, {
+                "kind": "the C++ encoding of the decoded object is not the canonical encoding of the Coq spec (result = [93; canonical length])",
+                "result": r}))
+    chk.coverage["coq_encode_cases"] = len(entries)
     chk.coverage["rule"] = ("schemas the C++ full generator supports (exhaustive-small sampled + random), values as in C01; canonical "
                             "bytes = the Python encoder's output (C01 checks these against the Coq spec); the compiled generated C++ "
                             "decodes them with decode<little>/<big> on an exact-size heap buffer and re-encodes with encode<E>(); "
                             "oracle: ok and identical bytes, native = little on this host. Values whose greedy tail does not end "
-                            "aligned (computed by the Coq spec) are excluded as documented.")
+                            "aligned (computed by the Coq spec) are excluded as documented. Every C++ encoding is also compared inside Coq with the "
+                            "generator/run-time model cpp_encode and with wire.")
     if records:
         i, vi, e, h, o = records[len(records) // 2]
         chk.sample({"schema": S.to_prophy(cases[i][2]), "endianness": e, "canonical": h, "cpp_ok": o.get("ok")})
     chk.assumptions += ["g++ 12 -O1, x86-64; template dispatch and the compiler are trusted",
                         "host is little-endian (observed: enc_native == enc_little)"]
-    return chk.finish(level="exploration")
+    return chk.finish(level="proof")
 
 
 if __name__ == "__main__":
